@@ -20,6 +20,7 @@ import (
 	"path/filepath"
 	"reflect"
 	"strings"
+	"time"
 
 	"github.com/inspirer/textmapper/compiler"
 	"github.com/inspirer/textmapper/grammar"
@@ -565,6 +566,38 @@ func c12Generated(c *Ctx, v lexVariant) {
 		inputs []lexReq
 	}
 	var items []*item
+	// ---- probes: rules that accept the empty text / {eoi} under a repetition ----
+	var probeReqs []lexReq
+	var probeDesc []string
+	emptyPats := []string{"()", "a{0}", "(a{0})", "()()", "(|)", "(b{0})?", "b*", "(a|)", "b?"}
+	for i, pat := range emptyPats {
+		name := fmt.Sprintf("pe%d", i)
+		src := fmt.Sprintf("language %s(go);\nlang = %q\npackage = \"gp/%s\"\n:: lexer\nws: /[ ]+/ (space)\na: /a/\ne: /%s/\n", name, name, name, pat)
+		gp := compileTM(name, src, TMOpts{})
+		if gp.Err != nil {
+			c.Count("empty-text pattern rejected by the compiler")
+			continue
+		}
+		if gp.G.Lexer == nil || gp.G.Lexer.Tables == nil {
+			continue
+		}
+		b.Add(gp)
+		probeReqs = append(probeReqs, lexReq{name, 0, "a b"})
+		probeDesc = append(probeDesc, "C12-empty-pattern grammar: ws: /[ ]+/ (space); a: /a/; e: /"+pat+"/  (compiles without `accepts empty text`)")
+		_, sp := spaceSet(gp.G)
+		c.Case(lexProto(v, gp.G.Options, gp.G.Lexer, sp, nil), fmt.Sprintf("wf=0 map=1 eoif=%s", b2s(eoiFinalGo(gp.G.Lexer.Tables))), "")
+	}
+	eoiLoop := lexEoiLoopDefect()
+	c.Extra["eoi_loop_probe_static"] = eoiLoop
+	if gp := compileTM("pq", lexEoiLoopProbe, TMOpts{}); gp.Err == nil && gp.G.Lexer != nil && gp.G.Lexer.Tables != nil {
+		b.Add(gp)
+		probeReqs = append(probeReqs, lexReq{"pq", 0, "ab"})
+		probeDesc = append(probeDesc, "C12-eoi-loop grammar: ws: /[ ]+/ (space); a: /a/; q: /b{eoi}+/")
+		if eoiLoop {
+			_, sp := spaceSet(gp.G)
+			c.Case(lexProto(v, gp.G.Options, gp.G.Lexer, sp, nil), "wf=0 map=1 eoif=0", "")
+		}
+	}
 	for k := 0; k < nG; k++ {
 		name := fmt.Sprintf("h%d", k)
 		g := genLexGram(r, name, true)
@@ -582,6 +615,27 @@ func c12Generated(c *Ctx, v lexVariant) {
 	if err := b.Build(); err != nil {
 		c.Violate("generated lexers do not build: "+err.Error(), items[0].gp.TM)
 		return
+	}
+	// the probe lexers run one by one with a deadline: a lexer that does not return is a finding
+	for i, rq := range probeReqs {
+		out := b.RunTimeout([]lexReq{rq}, 10*time.Second)[0]
+		seq, ok := parseSeq(out)
+		switch {
+		case out == "crash":
+			c.Violate("the generated Next() does not return: at the end of the input the state reached after `b` loops on the EOI column (an {eoi} under a repetition is an ordinary consumable symbol of the DFA)",
+				fmt.Sprintf("%s  input %q: no answer within 10s", probeDesc[i], rq.Text))
+		case !ok:
+			c.Violate("probe lexer failed: "+out, probeDesc[i])
+		default:
+			var obs []lexObs
+			for _, t := range seq {
+				obs = append(obs, lexObs{t, 0})
+			}
+			if msg := checkContract(rq.Text, obs, contractCfg{line: true, bomSkipped: true}); msg != "" {
+				c.Violate("a rule whose pattern matches the empty text is compiled into the lexer (lex/compile.go addPattern only inspects the links of the first instruction): "+msg,
+					fmt.Sprintf("%s  input %q tokens %s", probeDesc[i], rq.Text, out))
+			}
+		}
 	}
 	nIn := c.N(40, 80)
 	var reqs []lexReq
